@@ -503,6 +503,9 @@ func (o *operation) queryValues() url.Values {
 }
 
 func (o *operation) handle() {
+	// The request line is rewritten below, but the client's query string is
+	// only looked at later, when the request message is prepared: parse it now.
+	_ = o.queryValues()
 	o.clientEnveloper, _ = o.client.protocol.(envelopedProtocolHandler)
 	o.clientPreparer, _ = o.client.protocol.(clientBodyPreparer)
 	if o.clientPreparer != nil {
